@@ -178,6 +178,7 @@ def run(ctx) -> None:
   ctx.rule('R3', 'datastores access shared state only inside a single `with self._lock` region per '
            'public method and never call their own public methods', 40)
   ctx.rule('R4', 'all acquisitions of one lock table are keyed by the same kind of resource name (owner / study / trial)', 12)
+  ctx.import_rules('C07', {'R10'}, 'R5', 'a trial write that races with an unlocked DeleteTrial fails instead of re-creating the trial (update never inserts)')
   tables = lock_tables(svc)
   if len(tables) < 3:
     raise AnalysisError(f'lock tables of the servicer not found (got {sorted(tables)})')
